@@ -8,16 +8,22 @@
    is the nil entry Update and Cancel leave behind: it is how Delete finds the SimpleCache keys of a Redis key.
 
    Flight has two critical sections: the look-up under RLock (hit, or wait on a pending flight) and, otherwise, the
-   registration of a new flight under Lock, which re-reads only the flights map, not the SimpleCache.  At most one
-   call is parked between the two (Interleave = TRUE) while every other operation may run.
+   registration of a new flight under Lock, which looks at the SimpleCache AGAIN (a value completed meanwhile is a hit)
+   and at the flights map.  At most one call is parked between the two (Interleave = TRUE) while every other
+   operation may run.
+   BugNoRecheck = TRUE is the code before "fix: adapter.Flight must look at the SimpleCache again before it registers
+   a flight": the second section re-read only the flights map, so a call parked between the sections while another
+   call missed, fetched and completed the identity registered a second flight over a fresh value -- a second request,
+   and (Delete skips identities with a pending flight) a value that survives the invalidation of its key and is served
+   as a hit: NoFlightOverFreshValue / DeleteLeavesNoHit (found by the client-side-caching protocol family, C06).
 
    Oddities modelled as they are: an expired value stays in the SimpleCache until it is overwritten or deleted; Delete
-   does not remove the value of an identity whose flight is pending; Cancel leaves a marker; after Close every Flight
-   is a miss that registers nothing.                                                                              *)
+   does not remove the value of an identity whose flight is pending (harmless as long as such a value is never fresh);
+   Cancel leaves a marker; after Close every Flight is a miss that registers nothing.                               *)
 EXTENDS Integers, Sequences, FiniteSets, TLC
 
 CONSTANTS Keys, Cmds, Sizes, TTLs, SrvTTLs, SrvNone, MaxClock, Interleave,
-          BugLaterExpiry, BugDeletePending, BugHitExpired
+          BugLaterExpiry, BugDeletePending, BugHitExpired, BugNoRecheck
 
 VARIABLES store, closed, now, park, out
 vars == <<store, closed, now, park, out>>
@@ -37,10 +43,12 @@ MinOf(S) == CHOOSE x \in S : \A y \in S : x <= y
 Fresh(e, t) == e.st = "done" /\ (IF BugHitExpired THEN e.exp >= t ELSE e.exp > t)
 CanRun == park.ph = "none" \/ Interleave
 
-\* second critical section: register a flight unless one is pending by now (the SimpleCache is not consulted again)
+\* second critical section: a value that is fresh by now is a hit (the caller's clock reading t is the one of the first
+\* section); otherwise register a flight unless one is pending by now
 Slow(it, t) ==
   LET e == store[it.k][it.c]
   IN IF closed THEN [st |-> store, res |-> Miss]
+     ELSE IF ~BugNoRecheck /\ Fresh(e, t) THEN [st |-> store, res |-> [r |-> "hit", exp |-> e.exp, sz |-> e.sz]]
      ELSE IF e.f = "pending" THEN [st |-> store, res |-> Wait]
      ELSE [st |-> [store EXCEPT ![it.k][it.c].f = "pending", ![it.k][it.c].fexp = t + it.ttl], res |-> Miss]
 
@@ -136,6 +144,9 @@ TypeOK == /\ \A p \in Pairs : LET e == store[p[1]][p[2]] IN
 \* C06 part: every cached value can be found by Delete (marker) unless a newer flight is pending for it
 ValueHasRegistration == \A p \in Pairs : store[p[1]][p[2]].st = "done" => store[p[1]][p[2]].f # "absent"
 ClosedIsEmpty == closed => \A p \in Pairs : store[p[1]][p[2]] = None
+\* C06 part: no flight is registered over a value that can still be served (Delete would skip it); the clock of the
+\* parked call is not ahead of now, so the re-check of the second section sees every value that is fresh now
+NoFlightOverFreshValue == \A p \in Pairs : store[p[1]][p[2]].f = "pending" => ~Fresh(store[p[1]][p[2]], now)
 
 IsUpdate == out'.op = "Update"
 ExpiryIsMin ==
@@ -153,6 +164,9 @@ ValueStable ==
         \/ IsUpdate /\ <<out'.k, out'.c>> = p /\ store[p[1]][p[2]].f = "pending"
         \/ out'.op \in {"Delete", "DeleteAll"} /\ p[1] \in out'.ks
         \/ out'.op \in {"Close", "Init"}]_vars
+\* C06 part: after Delete / DeleteAll no value of the named keys can be served
+DeleteLeavesNoHit ==
+  [][out'.op \in {"Delete", "DeleteAll"} => \A k \in out'.ks : \A c \in Cmds : ~Fresh(store'[k][c], now)]_vars
 PendingNeverEvicted ==
   [][\A p \in Pairs : (store[p[1]][p[2]].f = "pending" /\ store'[p[1]][p[2]].f # "pending") =>
         \/ out'.op \in {"Update", "Cancel"} /\ <<out'.k, out'.c>> = p
